@@ -211,6 +211,18 @@ def run(rep, tier="quick", srcdir=None, only=None):
         rule_OD2(rep, prog, q)
     if want("C05-WR3"):
         rule_WR3(rep, prog)
+    # the other hand-off edges named by the property: completion through a hierarchy, group wait, semaphore wait
+    if want("C03-MP2"):
+        from . import C03
+        C03.rule_MP2(rep, prog, q)
+    if want("C07-MP4"):
+        from . import C07
+        g = consts.get(["DISPATCH_GROUP_VALUE_INTERVAL", "DISPATCH_GROUP_VALUE_MASK", "DISPATCH_GROUP_VALUE_1", "DISPATCH_GROUP_HAS_NOTIFS",
+                        "DISPATCH_GROUP_HAS_WAITERS", "ETIMEDOUT"], srcdir=srcdir, unit="semaphore")
+        C07.rule_MP4(rep, prog, g)
+    if want("C08-MP2"):
+        from . import C08
+        C08.rule_MP2(rep, prog)
 
 
 MANIFEST = {
